@@ -29,13 +29,17 @@ type c13wCase struct {
 	Opt      kvh.Opt `json:"options"`
 	Slack    int     `json:"slack"` // acknowledged unflushed bytes before the window = BytesPerSync - Slack
 	A        string  `json:"a"`     // sync | put
-	B        string  `json:"b"`     // put | del
+	B        string  `json:"b"`     // put | del | sync
 }
 
 //go:noinline
 func c13wClientB(db *kv.DB, op string, vlen int, done chan error) {
 	if op == "del" {
 		done <- db.Delete([]byte("victim"))
+		return
+	}
+	if op == "sync" {
+		done <- db.Sync()
 		return
 	}
 	done <- db.Put([]byte("b"), kvh.GenValue(5, vlen))
@@ -173,7 +177,16 @@ wait:
 	}
 	if bReturned && didPark {
 		feat["B-returned-inside-A's-window"] = true
-		if bErr == nil {
+		if bErr == nil && c.B == "sync" {
+			// "Sync() flushes everything written so far": a second caller may not be told so while the flush of the
+			// first one has not even been issued
+			if un := c13wUnsynced(dir); un > 0 {
+				close(resume)
+				<-aDone
+				return feat, &kvh.Fail{Sig: "sync-returns-before-the-flush-under-concurrency", Msg: fmt.Sprintf("Sync() by client B returned nil while client A's Sync() had not reached its fsync yet: %d bytes written before B's call are unflushed at B's return", un)}
+			}
+		}
+		if bErr == nil && c.B != "sync" {
 			if acked := c13wUnsynced(dir) - aWrote; acked >= bps {
 				close(resume)
 				<-aDone
@@ -215,7 +228,10 @@ func c13Windows(t *testing.T, st *kvh.Stats) {
 		for _, bps := range []uint{100, 4096} {
 			for _, slack := range []int{1, 10, 40} {
 				for _, a := range []string{"sync", "put"} {
-					for _, b := range []string{"put", "del"} {
+					for _, b := range []string{"put", "del", "sync"} {
+						if b == "sync" && a != "sync" {
+							continue
+						}
 						n++
 						if !e.Mine(n) {
 							continue
